@@ -579,10 +579,10 @@ def write_evidence(prop, tier, seed, pspec, obls, infos, cmds, scratch_diff, kno
         json.dump(ev, f, indent=1)
 
 
-def gen_lock(tier_list, repo):
+def gen_lock(tier_list, repo, only_props=None):
     """Regenerate contracts/obligations.lock from a run on the unchanged tree."""
     lock = load_lock()
-    for prop in sorted(U.PROPS):
+    for prop in sorted(only_props or U.PROPS):
         for tier in tier_list:
             rc = check_property(prop, tier, repo)
             ev = json.load(open(os.path.join(EVIDENCE, '%s.json' % prop)))
@@ -608,8 +608,9 @@ def main():
     if args.target == 'selftest':
         import selftest
         return selftest.main(args.only or [])
-    if args.target == 'lock':
-        gen_lock(['quick', 'thorough'] if args.tier == 'thorough' else ['quick'], args.repo)
+    if args.target == 'lock' or args.target.startswith('lock:'):
+        gen_lock(['quick', 'thorough'] if args.tier == 'thorough' else ['quick'], args.repo,
+                 only_props=args.target[5:].split(',') if ':' in args.target else None)
         return 0
     if args.replay:
         return N.replay_file(args.target, args.replay, args.repo, CONTRACTS, U)
